@@ -18,7 +18,7 @@ shutil.copy(patch, os.path.join(out, "patch.diff"))
 shutil.copy(demo, os.path.join(out, "demo_test.go"))
 if os.path.exists(os.path.join(src, "OUT", "README.md")):
     shutil.copy(os.path.join(src, "OUT", "README.md"), os.path.join(out, "README.agent.md"))
-wt = "/tmp/seedchk-" + name
+wt = "/var/tmp/seedchk-" + name
 subprocess.run(["git", "-C", "/repo", "worktree", "remove", "--force", wt], stderr=subprocess.DEVNULL)
 shutil.rmtree(wt, ignore_errors=True)
 subprocess.run(["git", "-C", "/repo", "worktree", "add", "-q", "--detach", wt, "HEAD"], check=True)
@@ -31,15 +31,15 @@ try:
     r = sh("git apply %s && go build ./..." % patch)
     meta["applies_and_builds"] = r.returncode == 0
     # isolated namespaces: the repository's tests use fixed ports and socket paths, and other runs may be going on
-    r = sh("unshare -n -m sh -c 'ip link set lo up; go test -vet=off -count=1 -timeout 20m . 2>&1 | tail -3'")
+    r = sh("unshare -n -m sh -c 'mount -t tmpfs tmpfs /tmp; mount -t tmpfs tmpfs /dev/shm; ip link set lo up; go test -vet=off -count=1 -timeout 20m . 2>&1 | tail -3'")
     meta["baseline_suite_passes_with_change"] = r.returncode == 0 and "ok" in r.stdout and "FAIL" not in r.stdout
     shutil.copy(demo, os.path.join(wt, "zz_demo_test.go"))
     tests = re.findall(r"^func (Test\w+)\(", open(demo).read(), re.M)
     pat = "^(" + "|".join(tests) + ")$"
-    r = sh("unshare -n -m sh -c 'ip link set lo up; go test -vet=off -count=1 -timeout 10m -run \"%s\" . 2>&1 | tail -5'" % pat)
+    r = sh("unshare -n -m sh -c 'mount -t tmpfs tmpfs /tmp; mount -t tmpfs tmpfs /dev/shm; ip link set lo up; go test -vet=off -count=1 -timeout 10m -run \"%s\" . 2>&1 | tail -5'" % pat)
     meta["demo_fails_with_change"] = "FAIL" in r.stdout or "panic" in r.stdout
     sh("git apply -R %s" % patch)
-    r = sh("unshare -n -m sh -c 'ip link set lo up; go test -vet=off -count=1 -timeout 10m -run \"%s\" . 2>&1 | tail -5'" % pat)
+    r = sh("unshare -n -m sh -c 'mount -t tmpfs tmpfs /tmp; mount -t tmpfs tmpfs /dev/shm; ip link set lo up; go test -vet=off -count=1 -timeout 10m -run \"%s\" . 2>&1 | tail -5'" % pat)
     meta["demo_passes_without_change"] = r.returncode == 0 and "ok" in r.stdout and "FAIL" not in r.stdout
 finally:
     subprocess.run(["git", "-C", "/repo", "worktree", "remove", "--force", wt])
